@@ -7,10 +7,9 @@ for g in "${groups[@]}"; do
   k=$((k+1)); rm -rf /tmp/vpar_$k; cp -a /verif /tmp/vpar_$k
   ids=""
   for p in $g; do ids="$ids $(ls seeded | grep "^$p" | tr '\n' ' ')"; done
-  (VERIF_ROOT=/tmp/vpar_$k /tmp/vpar_$k/tools/reseed.sh $ids > /tmp/parreseed_$k.log 2>&1 &)
+  VERIF_ROOT=/tmp/vpar_$k /tmp/vpar_$k/tools/reseed.sh $ids > /tmp/parreseed_$k.log 2>&1 &
 done
-sleep 5
-while pgrep -f "tools/reseed.sh" > /dev/null; do sleep 10; done
+wait      # (the workers are jobs of this shell)
 rm -rf /tmp/vpar_*
 git -C /repo worktree prune
 cat /tmp/parreseed_*.log | grep -c "CAUGHT with failing input"
